@@ -30,10 +30,15 @@ Fixpoint lin_to_phys (a1 y : vec) : vec :=
 (* ---------------------------------------------------------------- scale factors *)
 
 (* per output variable: ref0, ref, res_ref, entrywise (scalars already broadcast) *)
-Record oscal := mkoscal { os_ref0 : vec; os_ref : vec; os_res : option vec }.
+Record oscal := mkoscal { os_ref0 : vec; os_ref : vec; os_res : option vec; os_explicit : bool }.
 
-(* add_output: res_ref defaults to ref *)
-Definition res_scale (s : oscal) : vec := match os_res s with Some r => r | None => os_ref s end.
+(* ExplicitComponent.add_output (also IndepVarComp): res_ref defaults to ref; ImplicitComponent: no residual
+   scaling unless res_ref is given *)
+Definition res_scale (s : oscal) : vec :=
+  match os_res s with
+  | Some r => r
+  | None => if os_explicit s then os_ref s else map (fun _ => 1) (os_ref s)
+  end.
 
 (* output vectors: a0 = ref0, a1 = ref - ref0; residual vectors: 0, res_ref *)
 Definition out_a0 (s : oscal) : vec := os_ref0 s.
@@ -55,7 +60,7 @@ Definition comp_ins (c : comp) : list inp :=
   match c with CIvc _ => [] | CExp ins _ => ins | CImp ins _ => ins end.
 
 Definition scaling_arrays (s : spec) (sc : list oscal) : val :=
-  let dflt := mkoscal [] [] None in
+  let dflt := mkoscal [] [] None true in
   let ins := flat_map comp_ins s in
   VL [ vqs (flat_map out_a1 sc); vqs (flat_map out_a0 sc); vqs (flat_map res_scale sc);
        vqs (flat_map (fun i => in_scale1 (nth (in_src i) sc dflt) (in_idx i) (in_fac i)) ins);
